@@ -100,6 +100,12 @@ claim("C19",
       "Coq proof (unfolding of the info functions, list characterisations) + regenerated exit code + lockstep correspondence + output oracle",
       "DESIGN.md 3 C19")
 
+claim("C15",
+      "Theorems about the model of the write sequence of one history's commit ([mkdir ascmhl] then, for the manifest and then for the chain file: open a temporary file, any number of write() calls, close, os.replace into place): for EVERY crash point -- every prefix of the sequence, for every number of write calls -- an existing well-formed history ends in one of three shapes, and in each of them all previously committed manifests are present unchanged and in order, the chain lists every previously committed generation with its digest, and the history passes the loader's chain check; the interrupted generation is wholly present or wholly absent in all shapes but one. The full statement is REFUTED for the faithful model in two windows, proved reachable and recorded as known findings: W1 (new history: folder exists, chain not yet -- later commands exit 32) and W2 (manifest in place, chain not yet replaced -- unchained manifest). Tied to the code by killing the real create (os._exit) at every write-type audit event, at every write() into a file under construction (buffer dropped / half a chunk flushed) and before every close(), on trees with 0-3 committed generations, flat and nested; after every kill the remains are compared byte for byte, classified, and info / verify / create are run on them; the uninterrupted run's event trace must equal the model's op list.",
+      "PARTIAL by nature: real kills sample runs; power-loss reordering below the VFS (no fsync model) and non-POSIX rename semantics are out of reach. Known findings W1 and W2 (known_findings.json) are genuine defects that are not small to repair (a manifest and its chain entry are two files).",
+      "Coq proof (prefix-closure of the micro-operation sequence, shape invariant, refutation witnesses) + kill-point enumeration on the real command + op-trace correspondence",
+      "DESIGN.md 3 C15")
+
 PENDING = "check under construction (planned: proof + correspondence, see DESIGN.md section 3)"
 
 
